@@ -117,11 +117,12 @@ Qed.
 
 Hypothesis A : accept_laws O.
 
-Lemma parse_pred_gdom : forall s p, parse_pred O s = Ok p -> gdom_pred O p.
+Lemma parse_pred_gdom : forall s p, parse_pred O s = Ok p -> anchor_printable p = true -> gdom_pred O p.
 Proof.
-  intros s p H. split; [exact (good_ok_wf _ _ _ _ (parse_pred_good O s) H)|].
-  pose proof (parse_pred_anchor _ _ H) as Ha. unfold anchor_parsed in Ha. destruct (panchor p) as [t|]; [|exact I].
-  destruct Ha as [x Hx]. exact (alaw_time O A _ _ Hx).
+  intros s p H Hpr. split; [exact (good_ok_wf _ _ _ _ (parse_pred_good O s) H)|].
+  pose proof (parse_pred_anchor _ _ H) as Ha. unfold anchor_parsed in Ha. unfold anchor_printable in Hpr.
+  destruct (panchor p) as [t|]; [|exact I].
+  destruct Ha as [x Hx]. exact (alaw_time O A _ _ Hx Hpr).
 Qed.
 
 Lemma parse_literal_gdom : forall s l, parse_literal O s = Ok l -> gdom_literal O l.
@@ -131,20 +132,20 @@ Proof.
   destruct Ha as [x Hx]. exact (alaw_float O A _ _ Hx).
 Qed.
 
-Lemma parse_object_gdom : forall s o, parse_object O s = Ok o -> gdom_object O o.
+Lemma parse_object_gdom : forall s o, parse_object O s = Ok o -> object_printable o = true -> gdom_object O o.
 Proof.
   intros s o. unfold parse_object.
   destruct (parse_node s) as [n| | |] eqn:En.
-  - intros H. inversion H. subst o. cbn. exact (parse_node_dom _ _ En).
+  - intros H. inversion H. subst o. cbn. intros _. exact (parse_node_dom _ _ En).
   - destruct (parse_literal O s) as [l| | |] eqn:El.
-    + intros H. inversion H. subst o. cbn. exact (parse_literal_gdom _ _ El).
+    + intros H. inversion H. subst o. cbn. intros _. exact (parse_literal_gdom _ _ El).
     + destruct (parse_pred O s) as [p| | |] eqn:Ep; try discriminate.
       intros H. inversion H. subst o. cbn. exact (parse_pred_gdom _ _ Ep).
     + discriminate.
     + intros H. exfalso. pose proof (parse_literal_good O s) as G. rewrite El in G. inversion G.
   - discriminate.
   - destruct (parse_literal O s) as [l| | |] eqn:El.
-    + intros H. inversion H. subst o. cbn. exact (parse_literal_gdom _ _ El).
+    + intros H. inversion H. subst o. cbn. intros _. exact (parse_literal_gdom _ _ El).
     + destruct (parse_pred O s) as [p| | |] eqn:Ep; try discriminate.
       intros H. inversion H. subst o. cbn. exact (parse_pred_gdom _ _ Ep).
     + discriminate.
@@ -155,19 +156,20 @@ Qed.
 Lemma node_accept_stable : forall s n, parse_node s = Ok n -> parse_node (print_node n) = Ok n.
 Proof. intros s n H. apply node_roundtrip. exact (parse_node_dom _ _ H). Qed.
 
-Lemma pred_accept_stable : forall s p, parse_pred O s = Ok p -> parse_pred O (print_pred O p) = Ok p.
-Proof. intros s p H. apply (pred_roundtrip_g O (alaw_quote O A)). exact (parse_pred_gdom _ _ H). Qed.
+Lemma pred_accept_stable : forall s p, parse_pred O s = Ok p -> anchor_printable p = true -> parse_pred O (print_pred O p) = Ok p.
+Proof. intros s p H Hp. apply (pred_roundtrip_g O (alaw_quote O A)). exact (parse_pred_gdom _ _ H Hp). Qed.
 
 Lemma literal_accept_stable : forall s l, parse_literal O s = Ok l -> parse_literal O (print_literal O l) = Ok l.
 Proof. intros s l H. apply literal_roundtrip_g. exact (parse_literal_gdom _ _ H). Qed.
 
-Lemma object_accept_stable : forall s o, parse_object O s = Ok o -> parse_object O (print_object O o) = Ok o.
-Proof. intros s o H. apply (object_roundtrip_g O (alaw_quote O A)). exact (parse_object_gdom _ _ H). Qed.
+Lemma object_accept_stable : forall s o, parse_object O s = Ok o -> object_printable o = true -> parse_object O (print_object O o) = Ok o.
+Proof. intros s o H Hp. apply (object_roundtrip_g O (alaw_quote O A)). exact (parse_object_gdom _ _ H Hp). Qed.
 
 (* triple: the components of an accepted triple are in the domain, and its subject text is exactly the printed subject,
    which (being the text before the FIRST subject split) contains no earlier split *)
 Lemma parse_triple_components : forall s t, parse_triple O s = Ok t ->
-  dom_node (subj t) = true /\ gdom_pred O (tpred t) /\ gdom_object O (tobj t) /\ type_split_free (ntype (subj t)) = true.
+  dom_node (subj t) = true /\ (anchor_printable (tpred t) = true -> gdom_pred O (tpred t)) /\
+  (object_printable (tobj t) = true -> gdom_object O (tobj t)) /\ type_split_free (ntype (subj t)) = true.
 Proof.
   intros s t. unfold parse_triple, idx.
   destruct (p_split (trim_space s)) as [[ps pe]|] eqn:Eps; [|discriminate].
@@ -208,10 +210,12 @@ Proof.
   rewrite app_length in Hf2. cbn [length] in Hf2. lia.
 Qed.
 
-Lemma triple_accept_stable : forall s t, parse_triple O s = Ok t -> parse_triple O (print_triple O t) = Ok t.
+Lemma triple_accept_stable : forall s t, parse_triple O s = Ok t -> triple_printable t = true ->
+  parse_triple O (print_triple O t) = Ok t.
 Proof.
-  intros s t H. destruct (parse_triple_components _ _ H) as [Hn [Hp [Ho Hf]]].
-  apply (triple_roundtrip_g O (alaw_quote O A)). unfold gdom_triple. repeat split; try assumption; apply Hp.
+  intros s t H Hpr. destruct (parse_triple_components _ _ H) as [Hn [Hp [Ho Hf]]].
+  unfold triple_printable in Hpr. apply andb_true_iff in Hpr. destruct Hpr as [P1 P2].
+  apply (triple_roundtrip_g O (alaw_quote O A)). unfold gdom_triple. repeat split; try assumption; try (apply Hp; exact P1). exact (Ho P2).
 Qed.
 
 End WithOracles.
